@@ -343,6 +343,12 @@ func RunC07(c *Ctx, r *Report) {
 	r.Check(okSeed, rule3, "GenerateKeyForIKESA: seed arguments", c.InstrPos(stream), "concatenateNonceAndSPI(nonce, initiatorSPI, responderSPI)", "the seed is not built from (nonce, initiatorSPI, responderSPI) in this order")
 	if cat != nil {
 		ok, why := c.concatNonceSPIShape(cat)
+		if !ok {
+			// the same octets written into a buffer of the final size (copy + PutUint64 at offsets)
+			if ok2, why2 := c.seedShapePresized(cat); ok2 {
+				ok, why = ok2, why2
+			}
+		}
 		r.Check(ok, rule3, "concatenateNonceAndSPI: nonce | BE64(spi_i) | BE64(spi_r)", c.Pos(cat.Pos()), why, why)
 	}
 
@@ -650,4 +656,61 @@ func RunC08(c *Ctx, r *Report) {
 		}
 	}
 	_ = types.Typ
+}
+
+// seedShapePresized: the returned buffer is make(len(nonce)+16) with the nonce copied to [0:len(nonce)],
+// BE64(param 1) at len(nonce) and BE64(param 2) at len(nonce)+8 (buffer families of the encode extractor).
+func (c *Ctx) seedShapePresized(fn *ssa.Function) (bool, string) {
+	e := c.encodeFamilies(fn)
+	f := e.f
+	if len(fn.Params) != 3 {
+		return false, "unexpected signature"
+	}
+	nl := f.SliceLen(fn.Params[0])
+	for _, fm := range e.order {
+		if !fm.Returned || fm.hasAppend() {
+			continue
+		}
+		if fm.InitLen.key() != nl.add(konst(16), 1).key() {
+			continue
+		}
+		okN, ok1, ok2, extra := false, false, false, 0
+		for _, sg := range fm.Segs {
+			if sg.Kind == "param" && sg.Src == ssa.Value(fn.Params[0]) && sg.At.isConst() && sg.At.C == 0 {
+				okN = true
+			} else {
+				extra++
+			}
+		}
+		isParam := func(bv BV, p ssa.Value) bool {
+			if len(bv) < 64 {
+				return false
+			}
+			for i := 0; i < 64; i++ {
+				b := bv[i]
+				if b.K != bRef || b.Idx != i {
+					return false
+				}
+				l := e.x.leaves[b.Leaf]
+				if l.Kind != "param" || l.V != p {
+					return false
+				}
+			}
+			return true
+		}
+		for _, r := range fm.Rows {
+			switch {
+			case r.Octets == 8 && r.Off.key() == nl.key() && isParam(r.Val, fn.Params[1]):
+				ok1 = true
+			case r.Octets == 8 && r.Off.key() == nl.add(konst(8), 1).key() && isParam(r.Val, fn.Params[2]):
+				ok2 = true
+			default:
+				extra++
+			}
+		}
+		if okN && ok1 && ok2 && extra == 0 {
+			return true, "make(len(nonce)+16): nonce at 0, BE64(spi_initiator) at len(nonce), BE64(spi_responder) at len(nonce)+8"
+		}
+	}
+	return false, "no returned buffer of len(nonce)+16 with nonce | BE64(spi_i) | BE64(spi_r)"
 }
